@@ -54,6 +54,31 @@ def build_shim(ctx):
             sys.exit(2)
 
 
+def unpack_golden(ctx):
+    """decompress /verif/golden into out/golden and derive the legacy-header variants"""
+    import gzip, hashlib, subprocess, sys
+    src = os.path.join(ROOT, "golden")
+    dst = os.path.join(ROOT, "out", "golden")
+    os.makedirs(dst, exist_ok=True)
+    sums = {}
+    for line in open(os.path.join(src, "SHA256SUMS")):
+        h, name = line.split()
+        sums[name] = h
+    for f in sorted(os.listdir(src)):
+        if f.endswith(".gz"):
+            data = gzip.open(os.path.join(src, f), "rb").read()
+            name = f[:-3]
+            if name in sums and hashlib.sha256(data).hexdigest() != sums[name]:
+                ctx["log"]("HARNESS-ERROR: golden file %s does not match SHA256SUMS" % name)
+                sys.exit(2)
+            open(os.path.join(dst, name), "wb").write(data)
+    sys.path.insert(0, src)
+    import legacy
+    for ps in (1024, 4096, 5000, 16384):
+        d = bytearray(open(os.path.join(dst, "golden-%d.db" % ps), "rb").read())
+        open(os.path.join(dst, "legacy-%d.db" % ps), "wb").write(legacy.convert(d, ps))
+
+
 HISTORY_RULE = (
     "cases = (a) seeded grammar histories (2-16 write transactions of put/get/delete/bucket create/get/delete at depth<=3, "
     "cursor/seek/range/filters, commit/rollback/close+reopen; keys from a small pool mixing empty, 1-3 byte, 40 byte, ~1 page and "
@@ -191,5 +216,32 @@ PROPS = {
         "floors": {"any": {"injected_runs": 200, "faults_that_fired": 150, "commit_returned_err": 100, "follow_up_transactions_verified": 300,
                            "extension_failures_by_file_size_limit": 3}},
         "assumptions": ["faults are injected at the libc boundary; fallocate failures are produced with RLIMIT_FSIZE because fs4 bypasses libc"],
+    },
+    "C16": {
+        "level": "exploration",
+        "rule": "cases = (history, configuration): grammar + shape-directed histories with absolute sizes replayed under page sizes "
+                "{1024,1032,2048,3000,4096,5000,16384,65536,1 MiB} x initial pages {4,32,1000} x strict x populate (quick: a pairwise covering subset "
+                "of 28 configurations; thorough: the full product, 1 MiB x 1000 pages serially) and compared call by call, after every commit and after "
+                "reopen with the configuration-free model and the independent parser; growth runs of 26-70 MiB from the 4-page minimum file; page sizes "
+                "{1025,1027,1030,2049,4097,5001,65537} each in a child process: must work (same oracle) or be refused before any file is written - a dying "
+                "process is a violation. non-trivial = pair whose history committed at least once and ran to the end (growth runs: >= 2 extensions).",
+        "run": generic(thorough_profiles=("verif-rel",)),
+        "floors": {"any": {"commits_verified": 300, "commits_under_strict_mode": 100, "growth_runs": 3, "file_extensions_observed_in_growth_runs": 6}},
+        "assumptions": ["the reference model is configuration-free by construction"],
+    },
+    "C15": {
+        "level": "exploration",
+        "rule": "cases = golden files produced from the pinned tree f5c2214 at page sizes 1024/4096/5000/16384 (nested buckets, multi-page values, a key "
+                "longer than a page, non-empty free list), each also rewritten with the legacy SHA3-256 header (8 files), plus 4 files written by the "
+                "CURRENT code from the same logical history. Per golden file: the independent reader must parse it to the manifest written by the pinned "
+                "code; the current code must open it, read the manifest contents through the full read API, pass DB::check, leave the bytes untouched, "
+                "take 3 further commits (page reuse, bucket delete, reopen; independent parser + DB::check after each; newest header then in current "
+                "format), and refuse each of 7 mismatching page sizes without changing the file. Per produced file: the pinned-layout reader must parse "
+                "it to the manifest contents. The space is finite and fully enumerated (exhaustive). non-trivial = every case.",
+        "run": generic(thorough_profiles=("verif-rel",), pre=unpack_golden, extra_sets=("golden=" + os.path.join(ROOT, "out", "golden"),)),
+        "floors": {"any": {"golden_files_checked": 8, "legacy_header_files_checked": 4, "opens_fully_verified_against_manifest": 8,
+                           "further_commits_on_golden_files": 24, "mismatching_page_sizes_refused": 48, "files_produced_by_current_code_parsed": 4}},
+        "assumptions": ["the golden files were produced once from the pinned tree and are integrity-checked against SHA256SUMS",
+                        "every file any other check produces is also parsed by the same pinned-layout reader (C05, C02, C10, C11, C16)"],
     },
 }
